@@ -1073,6 +1073,50 @@ class C14(Check):
             cases.append(self._stack([E, I(17), U, {"k": "bytes", "data": (b"\xa5" * n).hex()}]))
         # UDP checksum that comes out as 0 -> transmitted as 0xffff (payload chosen so that the sum is 0xffff)
         cases.append(self._stack([E, I(17, srcip=0, dstip=0), dict(U, srcport=0, dstport=0), {"k": "bytes", "data": "ffda"}]))
+        # --- double carry: the 16-bit word sum of the checksummed region is k*2^16 + 0xffff (k >= 1), so the first end-around fold
+        #     overflows again and a single-fold re-implementation (of the generic routine OR of one protocol's own checksum) is
+        #     wrong.  One case per protocol region and per byte order of summation (the code sums host-order words, the RFC
+        #     big-endian ones).  The tunable word is computed here from the formats, not from the library.
+        def swap(w): return ((w & 0xff) << 8) | (w >> 8)
+        def tune(region, order):
+            """16-bit value to put into an aligned zero word of `region` so that the word sum in `order` carries twice"""
+            r = region + (b"\0" if len(region) % 2 else b"")
+            ws = [(r[i] << 8) | r[i + 1] for i in range(0, len(r), 2)]
+            base = sum(ws) if order == "be" else sum(swap(w) for w in ws)
+            x = (0xffff - base) & 0xffff
+            tot = base + x
+            assert tot >= 0x10000 and (tot >> 16) + (tot & 0xffff) >= 0x10000
+            return x if order == "be" else swap(x)
+        FF = 0xffffffff
+        for order in ("be", "le"):
+            for opts, pl in (("", "616263"), ("0101010144040500", "61626364"), ("", "")):
+                hl = 5 + len(opts) // 8
+                n = len(pl) // 2
+                # IPv4 header (id is the tunable word)
+                hdr0 = struct.pack("!BBHHHBBHII", 0x40 + hl, 0xfe, 4 * hl + n, 0, 0x5fff, 0xff, 253, 0, FF, 0xfffffffe) + bytes.fromhex(opts)
+                cases.append(self._stack([E, I(253, hl=hl, tos=0xfe, id=tune(hdr0, order), flags=2, frag=0x1fff, ttl=0xff, srcip=FF, dstip=0xfffffffe, raw_options=opts),
+                                          {"k": "bytes", "data": pl}]))
+            for pl in ("ffffffff", "ffffffffff", ""):
+                body = bytes.fromhex(pl)
+                # ICMP echo (identifier is the tunable word; the sequence number keeps the sum above 2^16)
+                reg = struct.pack("!BBHHH", 8, 0xff, 0, 0, 0xfffe) + body
+                cases.append(self._stack([E, I(1), {"k": "icmp", "type": 8, "code": 0xff, "csum": 0}, {"k": "echo", "id": tune(reg, order), "seq": 0xfffe},
+                                          {"k": "bytes", "data": pl}]))
+                # ICMP with an opaque body (the first body word is the tunable one)
+                reg = struct.pack("!BBH", 13, 0xff, 0) + b"\0\0" + b"\xff\xfe\xff\xfd" + body
+                cases.append(self._stack([E, I(1), {"k": "icmp", "type": 13, "code": 0xff, "csum": 0},
+                                          {"k": "bytes", "data": (struct.pack("!H", tune(reg, order)) + b"\xff\xfe\xff\xfd" + body).hex()}]))
+                # UDP over IPv4: pseudo header + header + data (source port is the tunable word)
+                ph = struct.pack("!IIBBH", FF, 0xfffffffe, 0, 17, 8 + len(body))
+                reg = ph + struct.pack("!HHHH", 0, 0xfffd, 8 + len(body), 0) + body
+                cases.append(self._stack([E, I(17, srcip=FF, dstip=0xfffffffe), dict(U, srcport=tune(reg, order), dstport=0xfffd), {"k": "bytes", "data": pl}]))
+                # TCP over IPv4 (window is the tunable word), without and with options
+                for topts, ob in (([], b""), ([{"t": 2, "v": 0xffff}, {"t": 1}, {"t": 3, "v": 0xff}], bytes.fromhex("0204ffff010303ff"))):
+                    thl = 20 + len(ob)
+                    ph = struct.pack("!IIBBH", FF, 0xfffffffe, 0, 6, thl + len(body))
+                    reg = ph + struct.pack("!HHIIBBHHH", 0xffff, 0xfffe, FF, 0xfffffffd, (thl // 4) << 4, 0xff, 0, 0, 0xfffc) + ob + body
+                    cases.append(self._stack([E, I(6, srcip=FF, dstip=0xfffffffe), dict(T(topts), srcport=0xffff, dstport=0xfffe, seq=FF, ack=0xfffffffd, flags=0xff,
+                                                                                         win=tune(reg, order), urg=0xfffc), {"k": "bytes", "data": pl}]))
         # --- options / VLAN / ARP / ICMP errors, one of each
         cases.append(self._stack([E, I(253, hl=7, raw_options="0101010144040500"), {"k": "bytes", "data": "616263"}]))
         for opts in ([{"t": 2, "v": 1460}], [{"t": 1}, {"t": 1}, {"t": 4}, {"t": 8, "v": [1, 2]}], [{"t": 3, "v": 7}], [{"t": 5, "v": [[1, 2]]}],
